@@ -72,19 +72,29 @@ def _guard(job):
     return out
 
 
-RETRY_CASE_S = 900
+RETRY_CASE_S = 480          # guard of a re-run, and at the same time the budget of ALL re-runs of one check
+RETRY_SPENT = [0.0]
+
+
+def retry_guard():
+    """Seconds a re-run may still take (0: budget used up, the case stays inconclusive). A tree on which
+    many cases hang must not turn the re-runs into hours."""
+    left = int(RETRY_CASE_S - RETRY_SPENT[0])
+    return left if left >= 30 else 0
 
 
 def _retry_one(job):
     """Re-run one item alone with a long per-case guard (the first attempt hit the guard)."""
-    fn, arg = job
+    fn, arg, guard = job
     old = os.environ.get("VERIF_CASE_S")
-    os.environ["VERIF_CASE_S"] = str(RETRY_CASE_S)
+    os.environ["VERIF_CASE_S"] = str(guard)
+    os.environ["VERIF_DEADLINE"] = str(time.time() + guard)
     try:
         return ("ok", fn(arg))
     except (Exception, SystemExit):
         return ("err", traceback.format_exc())
     finally:
+        os.environ.pop("VERIF_DEADLINE", None)
         if old is None:
             os.environ.pop("VERIF_CASE_S", None)
         else:
@@ -102,6 +112,8 @@ def _has_inconclusive(val, depth=0):
 
 
 RETRIED = [0]
+SHRINK_CASE_S = 20
+SHRINK_TOTAL_S = 600
 
 
 def pmap(fn, items, chunksize=None):
@@ -130,16 +142,22 @@ def pmap(fn, items, chunksize=None):
                 close_pool()
                 harness_error("worker raised:\n" + val)
             if _has_inconclusive(val):
-                again.append(idx)       # the per-case guard fired (transient load?): retried below, alone
+                again.append((idx, val))       # the per-case guard fired (transient load?): retried below, alone
             else:
                 out.append(val)
-    for idx in again:
+    for idx, first in again:
+        guard = retry_guard()
+        if not guard:
+            out.append(first)
+            continue
         RETRIED[0] += 1
+        t0 = time.time()
         try:
-            tag, val = pool().apply_async(_retry_one, ((fn, items[idx]),)).get(timeout=stall)
+            tag, val = pool().apply_async(_retry_one, ((fn, items[idx], guard),)).get(timeout=stall)
         except mp.TimeoutError:
             close_pool()
             harness_error("retry of a case that hit the wall-clock guard delivered no result for %d s" % stall)
+        RETRY_SPENT[0] += time.time() - t0
         if tag == "err":
             close_pool()
             harness_error("worker raised:\n" + val)
@@ -225,6 +243,12 @@ class Report:
 
         shrink_fn(bucket, witness) -> (smaller witness, detail) or None."""
         close_pool_after = True
+        # while minimising, a candidate may take at most SHRINK_CASE_S (a slower one counts as 'does not
+        # fail' and is skipped), and all minimisation together at most SHRINK_TOTAL_S; both only limit how
+        # small the reported witness gets
+        old_case_s = os.environ.get("VERIF_CASE_S")
+        os.environ["VERIF_CASE_S"] = str(min(SHRINK_CASE_S, int(old_case_s or SHRINK_CASE_S)))
+        t_shrink_end = time.time() + SHRINK_TOTAL_S
         nviol = 0
         known_hit = []
         lines = []
@@ -238,7 +262,9 @@ class Report:
             nviol += 1
             w, detail = e["witness"], e["detail"]
             kind = e["kind"]
-            if shrink_fn is not None:
+            if shrink_fn is not None and time.time() >= t_shrink_end:
+                detail = detail + " [witness not minimised: minimisation time budget of this run used up]"
+            elif shrink_fn is not None:
                 try:
                     sh = shrink_fn(b, w)
                     for alt in ("sequence", "cfg-sequence", "item-sequence"):
@@ -269,6 +295,10 @@ class Report:
                 wtxt = json.dumps(w)[:300]
             print("  witness: %s" % wtxt)
             print("  detail: %s" % detail)
+        if old_case_s is None:
+            os.environ.pop("VERIF_CASE_S", None)
+        else:
+            os.environ["VERIF_CASE_S"] = old_case_s
         for ln in lines:
             print(ln)
         if self.inconclusive:
@@ -383,13 +413,19 @@ def pristine_wait(p, timeout=3600):
     for line in out.splitlines():
         if line.startswith(MARK):
             res = json.loads(line[len(MARK):])
-            if _has_inconclusive(res) and os.environ.get("VERIF_CASE_S") != str(RETRY_CASE_S) and hasattr(p, "_verif_call"):
+            if _has_inconclusive(res) and not getattr(p, "_verif_retry", False) and hasattr(p, "_verif_call") and retry_guard():
                 RETRIED[0] += 1             # the per-case guard fired: once more, with a long guard
                 old = os.environ.get("VERIF_CASE_S")
-                os.environ["VERIF_CASE_S"] = str(RETRY_CASE_S)
+                os.environ["VERIF_CASE_S"] = str(retry_guard())
+                os.environ["VERIF_DEADLINE"] = str(time.time() + retry_guard())
+                t0 = time.time()
                 try:
-                    return pristine_wait(pristine_start(*p._verif_call), timeout=timeout)
+                    p2 = pristine_start(*p._verif_call)
+                    p2._verif_retry = True
+                    return pristine_wait(p2, timeout=timeout)
                 finally:
+                    os.environ.pop("VERIF_DEADLINE", None)
+                    RETRY_SPENT[0] += time.time() - t0
                     if old is None:
                         os.environ.pop("VERIF_CASE_S", None)
                     else:
